@@ -1,6 +1,6 @@
 from . import core, standard
 
-HEADER = """From Coq Require Import List ZArith NArith. Import ListNotations.
+HEADER = """From Coq Require Import List ZArith NArith Floats. Import ListNotations.
 Require Import Clarabel.Base.Ops Clarabel.Csc.Model Clarabel.Csc.Check."""
 
 
@@ -10,6 +10,8 @@ def nontrivial(case):
         return len(inp["A"]["nzval"]) >= 1
     if case["op"] == "concat":
         return sum(len(b["nzval"]) for b in inp["blocks"]) >= 1
+    if case["op"] == "fgemv":
+        return len(inp["A"]["nzval"]) >= 1
     if case["op"] == "hvgrid":
         return sum(len(b["nzval"]) for r in inp["rows"] for b in r) >= 1
     if case["op"] == "triplets":
@@ -44,8 +46,8 @@ SPEC = {
     "nontrivial": nontrivial,
     "diagnose": diagnose,
     "rule": ("cases = (operation bundle, input) pairs. Exhaustive part: every matrix of shape 0x0, 0x2, 2x0, 1x1, 1x2, 2x1, "
-             "1x3, 3x1, 2x2 over {absent,1,-1,2} and 2x3, 3x2 over {absent,1,-1}; 3x3 over {absent,1,-1}: every 4th code in "
-             "quick (4 921 of 19 683), all in thorough (which adds 2x3/3x2 over four values and lattice samples of 4x3 and "
+             "1x3, 3x1, 2x2 over {absent,1,-1,2} and 2x3, 3x2 over {absent,1,-1}; 3x3 over {absent,1,-1}: every 5th code in "
+             "quick (3 937 of 19 683), all in thorough (which adds 2x3/3x2 over four values and lattice samples of 4x3 and "
              "3x3 over four values); every ordered triplet sequence of length <= 3 (thorough: 4) over a 2x2 grid with values "
              "{1,-1,2}; ordered pairs of the 105 blocks of shape <= 2x2 over {absent,1,-1} (quick: every 8th pair, thorough: "
              "all); identity/zeros for n <= 5. Seeded random part: matrices up to 40x40 with stored zeros and empty "
@@ -53,11 +55,14 @@ SPEC = {
              "degenerate layouts), triplet lists, raw encodings (canonical, unsorted with duplicates, malformed colptr / "
              "lengths / row indices). Each single-matrix bundle runs every operation named in the property on that matrix "
              "(incl. symv, quad_form and col_norms_sym on its upper triangle, set_entry on absent and stored positions with "
-             "zero and nonzero values, select_rows with all/no/some rows). A case is non-trivial when its input stores at "
+             "zero and nonzero values, select_rows with all/no/some rows, all 16 (a,b) class pairs of gemv in rotation, triu / symmetric round trips, the "
+             "missing-diagonal pipeline). Dimension-consistent raw encodings (unsorted, duplicated; all 2x2 and every 3rd 3x3 encoding with column "
+             "sequences of length <= 2) also run is_triu, index_to_coord at every index and the diagonal counters. fgemv: binary64-level gemv / gemv_T / "
+             "symv on 12 shapes x all coefficient class pairs incl. -0 x finite / non-finite garbage in y. A case is non-trivial when its input stores at "
              "least one entry; distinct = distinct (op,input) JSON"),
     "level": "proof",
     "explanation": "Unbounded Coq theorems (Props/C16.v) state that each operation of the Gallina CSC model has the dense meaning and preserves canonical form, for every matrix over any commutative ring. The model is tied to the Rust code by running both on the same inputs (exact arithmetic: i64 / small-integer f64) and comparing canonical-form + dense equality inside Coq by vm_compute.",
-    "assumptions": ["f64 arithmetic on small integers is exact (exactness domain)", "usize overflow is not modelled"],
+    "assumptions": ["f64 arithmetic on small integers is exact (exactness domain)", "usize overflow is not modelled", "Coq primitive floats implement IEEE binary64 (fgemv stream)"],
 }
 
 
